@@ -3,14 +3,15 @@
        model side: the exported self rows of the lock table REGENERATED FROM THE SOURCE (extracted
        [lock_table_x]) for the type and the types it embeds; spec: every such method has a row and every
        row of it satisfies [method_ok] (evaluated in Coq) (or is a recorded exception).
-   LIN/STRESS/EBMID ...  | race=<0|1> [at=...] [crash=1 ..|hang=1] [lin=<0|1> ops= ovl= [why=..] H <history>]
+   LIN/STRESS/EBMID/SNAPMID ...  | race=<0|1> [at=...] [crash=1 ..|hang=1] [lin=<0|1> ops= ovl= [why=..] H <history>]
        The observation of a concurrent run is not a function of the input; the "model" is the set of
        admissible observations (no race report, no crash, linearizable history): model_obs echoes the
        observation when it is admissible and is the canonical admissible prefix otherwise.
-       spec: race=0 and (lin=1 when a history was recorded).  For the components whose sequential model
-       is available as an extracted Coq model (wlru: model/Wlru.v of C29; sem: model/Semaphore.v of C30)
-       the recorded history is searched for a linearization HERE as well, against the extracted model;
-       the case is admissible only if both searches agree that one exists. *)
+       spec: race=0 and (lin=1 when a history was recorded).  The recorded history is searched for a
+       linearization HERE as well, against sequential objects extracted from Coq: wlru = model/Wlru.v (C29),
+       sem = model/Semaphore.v (C30), flushable/lazy = model/LinObjects.fl_step over model/Flushable.v (C22),
+       pool = model/LinObjects.pl_step over model/SyncedPool.v + CrashBase.v (C25); only buffer is checked by
+       the harness's own reference alone.  A case is admissible only if both searches find a linearization. *)
 open Model
 open Conv
 open Drv
@@ -123,7 +124,7 @@ let sem_apply ((h, c) : metric * metric) (op : string list) : (metric * metric) 
   | [o; n; s] ->
     let w = { mnum = n_of_tok n; msize = n_of_tok s } in
     (match o with
-     | "TryAcquire" | "Acquire0" -> (match sem_try h c w with Some h' -> ((h', c), "1") | None -> ((h, c), "0"))
+     | "TryAcquire" | "Acquire0" | "AcquireB" -> (match sem_try h c w with Some h' -> ((h', c), "1") | None -> ((h, c), "0"))
      | "Release" -> ((sem_release h c w, c), "ok")
      | "Processing" -> ((h, c), num h.mnum ^ "," ^ num h.msize)
      | "Available" ->
@@ -132,6 +133,76 @@ let sem_apply ((h, c) : metric * metric) (op : string list) : (metric * metric) 
      | "Terminate" -> ((h, { mnum = N0; msize = N0 }), "ok")
      | _ -> ((h, c), "?"))
   | _ -> ((h, c), "?")
+
+(* ---- C22 Flushable / C25 SyncedPool objects assembled in model/LinObjects.v *)
+let bs (x : string) : n list = List.init (String.length x) (fun i -> n_of_z (ZA.of_int (Char.code x.[i])))
+let sb (l : n list) : string = str_of_codes l
+let content_s (l : (n list * n list) list) : string =
+  "[" ^ String.concat ";" (List.map (fun (k, v) -> sb k ^ "=" ^ sb v) l) ^ "]"
+let optb = function None -> "nil" | Some v -> sb v
+
+let rec batch_wops = function
+  | k :: v :: r -> (if v = "~" then WDel (bs k) else WPut (bs k, bs v)) :: batch_wops r
+  | _ -> []
+let rec batch_writes = function
+  | k :: v :: r -> (bs k, (if v = "~" then None else Some (bs v))) :: batch_writes r
+  | _ -> []
+
+let fl_apply (st : fstate) (op : string list) : fstate * string =
+  let run o = fl_step st o in
+  let ok o = (fst (run o), "ok") in
+  match op with
+  | ["Put"; k; v] -> ok (FPut (bs k, bs v))
+  | ["Delete"; k] -> ok (FDelete (bs k))
+  | ["Get"; k] -> (match run (FGet (bs k)) with (st', FRVal v) -> (st', optb v) | (st', _) -> (st', "?"))
+  | ["Has"; k] -> (match run (FHas (bs k)) with (st', FRBool b) -> (st', b01 b) | (st', _) -> (st', "?"))
+  | ["Flush"] -> ok FFlush
+  | ["DropNotFlushed"] -> ok FDropNotFlushed
+  | ["Pairs"] -> (match run FPairs with (st', FRNum x) -> (st', num x) | (st', _) -> (st', "?"))
+  | ["SizeEst"] -> (match run FSizeEst with (st', FRNum x) -> (st', num x) | (st', _) -> (st', "?"))
+  | ["Snap"] -> (match run FSnap with (st', FRContent l) -> (st', content_s l) | (st', _) -> (st', "?"))
+  | "Batch" :: r -> ok (FBatch (batch_wops r))
+  | ["Stat"] | ["Compact"] | ["InitDb"] -> ok FStat
+  | _ -> (st, "?")
+
+let flag_key = bs "flag"
+let nm (x : string) : n = n_of_z (ZA.of_int (Char.code x.[0]))
+let nms (x : n) : string = String.make 1 (Char.chr (ZA.to_int (z_of_n x)))
+
+let pl_apply (st : pstate) (op : string list) : pstate * string =
+  let run o = pl_step flag_key st o in
+  let fmt (st', r) = (st', match r with
+    | PROk -> "ok" | PRErr -> "err" | PRVal v -> optb v | PRBool b -> b01 b | PRNum x -> num x
+    | PRNames l -> "[" ^ String.concat ";" (List.sort compare (List.map nms l)) ^ "]"
+    | PRContent c ->
+      let l = List.filter (fun (k, _) -> k <> flag_key) c in
+      content_s (List.sort (fun (a, _) (b, _) -> compare (sb a) (sb b)) l)) in
+  match op with
+  | "H" :: d :: rest ->
+    let d = nm d in
+    (match rest with
+     | ["Put"; k; v] -> fmt (run (PHPut (d, bs k, bs v)))
+     | ["Delete"; k] -> fmt (run (PHDel (d, bs k)))
+     | ["Get"; k] -> fmt (run (PHGet (d, bs k)))
+     | ["Has"; k] -> fmt (run (PHHas (d, bs k)))
+     | ["DropNotFlushed"] -> fmt (run (PHDropNotFlushed d))
+     | ["Pairs"] -> fmt (run (PHPairs d))
+     | ["SizeEst"] -> fmt (run (PHSizeEst d))
+     | ["Snap"] -> fmt (run (PHSnap d))
+     | "Batch" :: r -> fmt (run (PHBatch (d, batch_writes r)))
+     | _ -> (st, "?"))
+  | ["PFlush"; id] -> fmt (run (PFlush (bs id)))
+  | ["PSize"] -> fmt (run PSize)
+  | ["PNames"] -> fmt (run PNames)
+  | ["POpen"; d] -> fmt (run (POpen (nm d)))
+  | ["PUnder"; d] -> fmt (run (PUnder (nm d)))
+  | "PInit" :: ds -> fmt (run (PInit (List.map nm ds)))
+  | ["UGet"; d; k] -> fmt (run (PUGet (nm d, bs k)))
+  | _ -> (st, "?")
+
+(* the harness opens the stores a and b and their underlying databases before the goroutines start *)
+let pool_start : pstate =
+  List.fold_left (fun st o -> fst (pl_step flag_key st o)) p_init [POpen (nm "a"); PUnder (nm "a"); POpen (nm "b"); PUnder (nm "b")]
 
 let rec after_h = function [] -> [] | "H" :: r -> r | _ :: r -> after_h r
 
@@ -147,6 +218,10 @@ let extracted_lin (inp : string list) (obs : string list) : bool option =
   | ["LIN"; "sem"; _; _; _] ->
     let m a b = { mnum = n_of_z (ZA.of_int a); msize = n_of_z (ZA.of_int b) } in
     Some (linearizable sem_apply (m 0 0, m 5 50) (parse_history (after_h obs)))
+  | ["LIN"; ("flushable" | "lazy"); _; _; _] | ["SNAPMID"] ->
+    Some (linearizable fl_apply f_init (parse_history (after_h obs)))
+  | ["LIN"; "pool"; _; _; _] ->
+    Some (linearizable pl_apply pool_start (parse_history (after_h obs)))
   | _ -> None
 
 let eval inp obs =
@@ -162,7 +237,7 @@ let eval inp obs =
       note = (if bad = [] then "" else "rows violating the lock discipline: " ^
                 String.concat "," (List.map (fun (ty, m, _, _) -> ty ^ "." ^ m) bad)) ^
              (if missing = [] then "" else " methods without a row: " ^ String.concat "," missing) }
-  | kind :: _ when kind = "LIN" || kind = "STRESS" || kind = "EBMID" ->
+  | kind :: _ when kind = "LIN" || kind = "STRESS" || kind = "EBMID" || kind = "SNAPMID" ->
     let race = not (has_tok "race=0" obs) in
     let crash = has_tok "crash=1" obs || has_tok "hang=1" obs in
     let wants_lin = kind <> "STRESS" in
